@@ -130,6 +130,24 @@ CLAUSE_NOTE = {
 }
 
 
+def repo_test_traces():
+    """Run the repository's own datastore tests under the recorder plugin (harness/pytest_recorder.py) and return their traces."""
+    import json
+    import os
+    import subprocess
+    out = os.path.join(common.scratch(), "repo_tests.json")
+    env = dict(os.environ, AW_CORE_VERIF="1", AW_CORE_VERIF_OUT=out, PYTHONPATH=common.VERIF + os.pathsep + common.REPO)
+    p = subprocess.run(["/venv/bin/python", "-m", "pytest", "-q", "-p", "no:cacheprovider", "-p", "harness.pytest_recorder", "--timeout=900",
+                        os.path.join(common.REPO, "tests", "test_datastore.py")], cwd=common.REPO, env=env, stdout=subprocess.PIPE, stderr=subprocess.STDOUT, text=True)
+    if not os.path.exists(out):
+        raise tlc.TLCFailure("recording the repository's tests produced no traces:\n" + p.stdout[-1500:])
+    with open(out) as f:
+        recs = json.load(f)
+    os.remove(out)
+    tail = p.stdout.strip().splitlines()[-1] if p.stdout.strip() else ""
+    return recs, tail
+
+
 def make_canaries(traces, rnd, k=6):
     """Real traces with one recorded field corrupted: the judge must reject every one of them."""
     out = []
@@ -217,6 +235,14 @@ def run(prop, tier, seed, replay=None):
         rep.notes["random_histories"] = nrand
     # ---- 3. run on the real backends
     runs = store.run_batch(behaviours, seed, backends=backends)
+    if replay is None:
+        # ... and the executions of the repository's own datastore tests, judged on full state instead of by their assertions
+        recs, tail = repo_test_traces()
+        for i, r in enumerate(recs):
+            runs.append({"backend": {"MemoryStorage": "memory", "SqliteStorage": "sqlite", "PeeweeStorage": "peewee"}.get(r["backend"], r["backend"]),
+                         "key": "repo-test-%d" % i, "ops": [{k: v for k, v in x.items() if k != "st"} for x in r["trace"]], "trace": r["trace"],
+                         "base": "recorded", "scale": 1})
+        rep.notes["repository_test_traces"] = {"traces": len(recs), "recorded_calls": sum(len(r["trace"]) for r in recs), "pytest": tail}
     traces = [r["trace"] for r in runs]
     ncan = 0
     if replay is None:
